@@ -811,9 +811,94 @@ pub fn run(tier: Tier, totals: &mut Totals) {
         json!({"levels": r.levels, "fixpoint": r.fixpoint, "states": r.states, "transitions": r.transitions}),
     );
     into_totals(&r, totals);
+    scale(tier, totals);
+}
+
+/// Sizes far beyond the search bound: collections with hundreds of items and hundreds of live handles.
+fn scale(tier: Tier, totals: &mut Totals) {
+    let sizes: Vec<u64> = tier.pick(vec![10, 70, 300], vec![10, 70, 300, 1000, 3000]);
+    for &n in &sizes {
+        let tri = (n * (n + 1) / 2).to_string();
+        // array: push n items, read the ends, join, pop everything
+        let text = format!(
+            "a = array\ni = set 0\nwhile less_than ${{i}} {n}\ni = calc ${{i}} + 1\narray_push ${{a}} ${{i}}\nend\nlen = array_length ${{a}}\nfirst = array_get ${{a}} 0\nlastv = array_get ${{a}} {last}\nbeyond = array_get ${{a}} {n}\njoined = array_join ${{a}} ,\njl = length ${{joined}}\nhas = array_contains ${{a}} {n}\nsum = set 0\nwhile not array_is_empty ${{a}}\nx = array_pop ${{a}}\nsum = calc ${{sum}} + ${{x}}\nend\nlen_after = array_length ${{a}}\nrel = release ${{a}}\nalive = is_array ${{a}}",
+            n = n,
+            last = n - 1
+        );
+        let joined_len: usize = (1..=n).map(|i| i.to_string().len()).sum::<usize>() + (n as usize - 1);
+        crate::util::scale_case_totals(
+            totals,
+            &format!("big-array items {}", n),
+            &text,
+            &[
+                ("len", Some(n.to_string())),
+                ("first", Some("1".into())),
+                ("lastv", Some(n.to_string())),
+                ("beyond", None),
+                ("jl", Some(joined_len.to_string())),
+                ("has", Some((n - 1).to_string())),
+                ("sum", Some(tri.clone())),
+                ("len_after", Some("0".into())),
+                ("rel", Some("true".into())),
+                ("alive", Some("false".into())),
+            ],
+        );
+        // map: n keys, overwrite one, remove the even ones
+        let text = format!(
+            "m = map\ni = set 0\nwhile less_than ${{i}} {n}\ni = calc ${{i}} + 1\nmap_put ${{m}} k${{i}} ${{i}}\nend\nmap_put ${{m}} k1 one\nsize = map_size ${{m}}\nv1 = map_get ${{m}} k1\nvn = map_get ${{m}} k{n}\nmissing = map_get ${{m}} k0\nkeys = map_keys ${{m}}\nnk = array_length ${{keys}}\nrelease ${{keys}}\ni = set 0\nwhile less_than ${{i}} {n}\ni = calc ${{i}} + 2\nmap_remove ${{m}} k${{i}}\nend\nsize_after = map_size ${{m}}\nodd = map_contains_key ${{m}} k1\neven = map_contains_key ${{m}} k2\nrelease ${{m}}",
+            n = n
+        );
+        crate::util::scale_case_totals(
+            totals,
+            &format!("big-map keys {}", n),
+            &text,
+            &[
+                ("size", Some(n.to_string())),
+                ("v1", Some("one".into())),
+                ("vn", Some(n.to_string())),
+                ("missing", None),
+                ("nk", Some(n.to_string())),
+                ("size_after", Some((n - n / 2).to_string())),
+                ("odd", Some("true".into())),
+                ("even", Some("false".into())),
+            ],
+        );
+        // set: every value twice
+        let text = format!(
+            "s = set_new\ni = set 0\nwhile less_than ${{i}} {n}\ni = calc ${{i}} + 1\nset_put ${{s}} ${{i}}\nset_put ${{s}} ${{i}}\nend\nsize = set_size ${{s}}\nhas = set_contains ${{s}} {n}\nhasnot = set_contains ${{s}} 0\narr = set_to_array ${{s}}\nna = array_length ${{arr}}\nrelease ${{arr}}\nrelease ${{s}}",
+            n = n
+        );
+        crate::util::scale_case_totals(
+            totals,
+            &format!("big-set members {}", n),
+            &text,
+            &[("size", Some(n.to_string())), ("has", Some("true".into())), ("hasnot", Some("false".into())), ("na", Some(n.to_string()))],
+        );
+        // n live handles held by an outer array; a recursive release takes them all
+        let text = format!(
+            "outer = array\ni = set 0\nwhile less_than ${{i}} {n}\ni = calc ${{i}} + 1\ninner = array ${{i}} x\narray_push ${{outer}} ${{inner}}\nend\nkeep = array_get ${{outer}} 0\nkeep_last = array_get ${{outer}} {last}\nsum = set 0\nfor h in ${{outer}}\nv = array_get ${{h}} 0\nsum = calc ${{sum}} + ${{v}}\nend\nbefore = is_array ${{keep_last}}\nrelease -r ${{outer}}\nafter_first = is_array ${{keep}}\nafter_last = is_array ${{keep_last}}\nafter_outer = is_array ${{outer}}",
+            n = n,
+            last = n - 1
+        );
+        crate::util::scale_case_totals(
+            totals,
+            &format!("many-handles count {}", n),
+            &text,
+            &[
+                ("sum", Some(tri.clone())),
+                ("before", Some("true".into())),
+                ("after_first", Some("false".into())),
+                ("after_last", Some("false".into())),
+                ("after_outer", Some("false".into())),
+            ],
+        );
+    }
 }
 
 pub fn replay(case: &Value) -> Result<String, String> {
+    if let Some(r) = crate::util::scale_replay(case) {
+        return r;
+    }
     let sys = C12::new(Tier::Thorough);
     let mut s = sys.new_impl();
     let mut m = sys.init_model();
